@@ -361,6 +361,46 @@ func vC09Scenario(name string, seed uint64) string {
 			return "close-hangs/" + strings.Join(vParked(), ",")
 		}
 		return w.aftermath(time.Since(start), bound)
+	case "close-while-call-is-being-prepared":
+		// Close lands after a call has passed its state check and registered itself, before it fetches the transport
+		w, err := vC09Setup(r)
+		if err != nil || !w.ready() {
+			return "setup"
+		}
+		const at = "ClientConn.Invoke#RLock#3"
+		verifrt.Start(nil)
+		verifrt.Hold(at, 1)
+		res := make(chan error, 1)
+		go func() {
+			ctx, cn := context.WithTimeout(context.Background(), 2*time.Second)
+			defer cn()
+			res <- w.cc.Invoke(ctx, "Echo", vAppMsg("p", nil, ""), &message.Response{})
+		}()
+		if !vWaitUntil(3*time.Second, func() bool { return verifrt.Held(at) >= 1 }) {
+			verifrt.Release(at)
+			verifrt.Stop()
+			return "gate-script-infeasible/call-not-held"
+		}
+		start := time.Now()
+		closed := make(chan bool, 1)
+		go func() { closed <- vClose(w.cc, 6*time.Second) }()
+		time.Sleep(30 * time.Millisecond)
+		verifrt.Release(at)
+		ok := <-closed
+		verifrt.Stop()
+		if !ok {
+			return "close-hangs/" + strings.Join(vParked(), ",")
+		}
+		took := time.Since(start)
+		select {
+		case err := <-res:
+			if err == nil {
+				return "call-succeeds-across-close"
+			}
+		case <-time.After(3 * time.Second):
+			return "call-in-flight-hangs-across-close"
+		}
+		return w.aftermath(took, bound)
 	case "concurrent-close":
 		w, err := vC09Setup(r)
 		if err != nil || !w.ready() {
@@ -392,7 +432,7 @@ func vC09Scenario(name string, seed uint64) string {
 	return "unknown-scenario"
 }
 
-var vC09Names = []string{"idle-longer-than-write-timeout", "calls-in-flight", "inbound-requests-with-slow-handlers", "reconnect-in-progress", "inbound-burst", "concurrent-close", "close-right-after-dial", "write-fails-with-message-in-hand", "peer-closed-first"}
+var vC09Names = []string{"idle-longer-than-write-timeout", "calls-in-flight", "inbound-requests-with-slow-handlers", "reconnect-in-progress", "inbound-burst", "concurrent-close", "close-right-after-dial", "write-fails-with-message-in-hand", "peer-closed-first", "close-while-call-is-being-prepared"}
 
 func TestVerifC09Child(t *testing.T) {
 	spec := vChildSpec()
